@@ -26,6 +26,8 @@ pub enum Tamper {
     Tree(u8),
     /// root set: list of roots, `true` marks the message's root
     Roots(Vec<Option<u64>>, String),
+    /// root buffer = one complete foreign root followed by bytes lo..hi of the message's own root (never a complete root)
+    RootsFragment(usize, usize),
 }
 impl Tamper {
     fn kind(&self) -> String {
@@ -37,6 +39,7 @@ impl Tamper {
             Tamper::ProofBit(_) => "proof-bit-flip".into(),
             Tamper::Tree(k) => format!("tree-{}", ["other-leaf-set", "member-leaf-deleted", "leaf-appended", "reset", "changed-and-changed-back"][*k as usize]),
             Tamper::Roots(_, how) => format!("root-set-{how}"),
+            Tamper::RootsFragment(lo, hi) => format!("root-buffer-foreign-root-then-own-bytes-{lo}..{hi}"),
         }
     }
     fn to_json(&self) -> Value {
@@ -48,6 +51,7 @@ impl Tamper {
             Tamper::ProofBit(b) => json!({"t":"proofbit","bit":b}),
             Tamper::Tree(k) => json!({"t":"tree","k":k}),
             Tamper::Roots(r, how) => json!({"t":"roots","set":r,"how":how}),
+            Tamper::RootsFragment(lo, hi) => json!({"t":"rootsfragment","lo":lo,"hi":hi}),
         }
     }
     fn from_json(v: &Value) -> Option<Tamper> {
@@ -60,6 +64,7 @@ impl Tamper {
             "proofbit" => Tamper::ProofBit(v["bit"].as_u64()? as usize),
             "tree" => Tamper::Tree(v["k"].as_u64()? as u8),
             "roots" => Tamper::Roots(v["set"].as_array()?.iter().map(|x| x.as_u64()).collect(), how),
+            "rootsfragment" => Tamper::RootsFragment(v["lo"].as_u64()? as usize, v["hi"].as_u64()? as usize),
             _ => return None,
         })
     }
@@ -72,6 +77,8 @@ pub fn base_requests(thorough: bool) -> Vec<Req> {
         Req { index: (1 << 20) - 1, signal: (0..1000u32).map(|k| (k % 251) as u8).collect(), ctx: 1, ..d.clone() },
         Req { secret: p() - big(1), index: 1 << 19, limit: big(1), id: big(0), signal: vec![], ctx: 0, ..d.clone() },
     ];
+    // a tree whose root has a zero top byte (byte-level boundary of the root's encoding)
+    v.push(Req { index: 77, ctx: 6, ..d.clone() });
     if thorough {
         v.push(Req { index: 0, ext: big(0), signal: vec![b'a'; 136], ctx: 2, ..d.clone() });
         v.push(Req { index: 255, limit: big(65536), id: big(65535), ext: p() - big(1), ctx: 3, ..d.clone() });
@@ -142,6 +149,10 @@ fn tampers(r: &Req, msg: &[u8], thorough: bool) -> Vec<Tamper> {
     t.push(Tamper::Roots(vec![Some(1), Some(2), Some(0)], "own-root-last-of-three".into()));
     t.push(Tamper::Roots(vec![Some(0), Some(0)], "own-root-twice".into()));
     t.push(Tamper::Roots(vec![Some(1), Some(2), Some(3), Some(4), Some(5)], "five-foreign-roots".into()));
+    // a complete foreign root followed by an incomplete copy of the own root: the own root is NOT in the set
+    for (lo, hi) in [(0usize, 31usize), (0, 16), (0, 1), (1, 32), (16, 32)] {
+        t.push(Tamper::RootsFragment(lo, hi));
+    }
     // root sets of many sizes, own root first / in the middle / last / absent
     for n in [2usize, 3, 4, 5, 8, 9, 16, 17, 255, 256, 257] {
         let foreign: Vec<Option<u64>> = (1..=n as u64).map(Some).collect();
@@ -280,6 +291,12 @@ impl C02 {
                 }
                 // restore the tree for whoever comes next
                 let _ = setup_tree(rln, r);
+            }
+            Tamper::RootsFragment(lo, hi) => {
+                let mut bytes = codec::fr(&foreign_root(1));
+                bytes.extend_from_slice(&own_root[*lo..*hi]);
+                let input = build(&m, &signal, &declared);
+                checks.push(("verify_with_roots".into(), v_roots(rln, &input, &bytes), false));
             }
             Tamper::Roots(set, _) => {
                 let mut bytes = vec![];
